@@ -43,6 +43,11 @@ cdef void free_double_cbuffer(s_double_cbuffer *cbuffer):
 
 
 cdef void push_double_cbuffer(s_double_cbuffer *cbuffer, double a):
+    # a buffer without elements (e.g. the output history of a filter 
+    # without feedback coefficients) has nowhere to store the value
+    if cbuffer.N == 0:
+        return
+
     if cbuffer.cur_pos == 0:
         cbuffer.cur_pos = cbuffer.N - 1
     else:
